@@ -1,6 +1,7 @@
 package main
 
 import (
+	"context"
 	"bytes"
 	"encoding/json"
 	"strings"
@@ -230,6 +231,14 @@ func runC13(ctx *Ctx) *Report {
 			c.Mode, c.Format = "iter-text", "json"
 			c.Doc, c.DocText = hx(doc), docText(doc)
 			seq = append(seq, c)
+			if len(f) == 1 {
+				// the same through the massive pipeline (one root: the result is determined): nothing learnt
+				// from an earlier document – indent unit, indent character, heading roots – may survive the call
+				c2 := newCase("out")
+				c2.Mode, c2.Massive = "iter-text", true
+				c2.Doc, c2.DocText = hx(doc), docText(doc)
+				seq = append(seq, c2)
+			}
 		}
 		m := NewModel()
 		for _, c := range seq {
@@ -277,6 +286,27 @@ func runC13(ctx *Ctx) *Report {
 	wg.Wait()
 	for i := range outs {
 		rep.Record(map[string]any{"kind": "markdown-concurrent", "i": i}, "mdconc:"+fmtInt(i), i < 2, cmp("concurrent From-Markdown call", outs[i], hx(want.Bytes())+"nil"))
+	}
+	// concurrent massive calls on one-root documents in different notations
+	{
+		sps := coveringSpellings()
+		tree := []*Tree{{Name: "r", Kids: []*Tree{{Name: "a", Kids: []*Tree{{Name: "b"}, {Name: "c"}}}, {Name: "d"}}}}
+		var want bytes.Buffer
+		gtree.OutputFromMarkdown(&want, bytes.NewReader(spell(tree, plainSpelling)))
+		mouts := make([]string, 48)
+		for i := range mouts {
+			wg.Add(1)
+			go func(i int) {
+				defer wg.Done()
+				var b lockedBuf
+				err := gtree.OutputFromMarkdown(&b, bytes.NewReader(spell(tree, sps[i%len(sps)])), gtree.WithMassive(context.Background()))
+				mouts[i] = hx(b.finish()) + classify(err)
+			}(i)
+		}
+		wg.Wait()
+		for i := range mouts {
+			rep.Record(map[string]any{"kind": "markdown-massive-concurrent", "spelling": sps[i%len(sps)]}, "mdmconc:"+fmtInt(i), true, cmp("concurrent massive From-Markdown call", mouts[i], hx(want.Bytes())+"nil"))
+		}
 	}
 	return rep
 }
